@@ -184,6 +184,7 @@ func newExec(p *Program, vc *VC, prop string) *Exec {
 func (p *Program) GenFunc(fc *FuncContract, prop string) (res *FuncResult) {
 	res = &FuncResult{Key: fc.Key(), Mode: fc.Mode}
 	vc := NewVC(fc.Mode, fc.Key())
+	vc.OpaqueMul = fc.OpaqueMul
 	res.VC = vc
 	ex := newExec(p, vc, prop)
 	ex.top = fc
@@ -384,14 +385,23 @@ func (p *Program) GenFunc(fc *FuncContract, prop string) (res *FuncResult) {
 			goal, extra := rsc.evalGoal(e.Expr)
 			if len(extra) == 0 {
 				proved[i+1] = goal
+			} else {
+				// a quantified postcondition: later clauses may use the statement itself (not its skolemised goal)
+				proved[i+1] = rsc.evalBool(e.Expr)
 			}
+			minItem := 0
 			for _, u := range e.Using {
+				if u.Op == "id" && u.Name == "only" {
+					// `using only; post(3); ...`: nothing but the listed facts (and type ranges) is given to the solver
+					minItem = len(vc.items)
+					continue
+				}
 				if u.Op == "call" && u.Name == "post" && len(u.Args) == 1 && u.Args[0].Op == "lit" {
 					var k int
 					fmt.Sscanf(u.Args[0].Name, "%d", &k)
 					g, ok := proved[k]
 					if !ok || k >= i+1 {
-						panic(specError{fmt.Sprintf("using post(%d): only an earlier, quantifier-free postcondition of the same property can be used", k)})
+						panic(specError{fmt.Sprintf("using post(%d): only an earlier postcondition of the same property can be used", k)})
 					}
 					extra = append(extra, fmt.Sprintf("(assert %s)", Implies(r.reach, g).S))
 					continue
@@ -404,7 +414,7 @@ func (p *Program) GenFunc(fc *FuncContract, prop string) (res *FuncResult) {
 			}
 			if len(fc.Cases) == 0 || r.reach.B != nil {
 				ex.obl(&Obligation{Name: name, Kind: "post", Props: e.Props, Hyp: r.reach, Goal: goal, Extra: extra, Note: "postcondition: " + e.Text,
-					Pos: f.pos(r.pos), Inputs: outs})
+					Pos: f.pos(r.pos), Inputs: outs, MinItem: minItem})
 			} else {
 				// one obligation per combination of the case splits (the splits are shown exhaustive separately)
 				combos := [][]int{{}}
